@@ -179,7 +179,9 @@ def gen_history(rng, nops, keys, mix):
         k = rng.choices(KINDS, weights=mix)[0]
         key = rng.choice(keys)
         ck = cstr(key)
-        if k == 'put':
+        if k == 'put' and rng.random() < 0.04:      # a put that cannot get its memory: refused, nothing changes
+            ops.append('puthuge %s' % hexs(key))
+        elif k == 'put':
             v = rand_val(rng)
             ops.append('put %s %s' % (hexs(key), hexs(v)))
             shadow[ck] = v
@@ -596,7 +598,7 @@ def run(ctx, replay=None):
         if aexe is None:
             ctx.notes.append('sanitizer build unavailable: ' + msg[-300:])
         else:
-            env = dict(os.environ, ASAN_OPTIONS='detect_leaks=1:abort_on_error=0:exitcode=77', UBSAN_OPTIONS='halt_on_error=1:exitcode=77')
+            env = dict(os.environ, ASAN_OPTIONS='detect_leaks=1:abort_on_error=0:exitcode=77:allocator_may_return_null=1', UBSAN_OPTIONS='halt_on_error=1:exitcode=77')
             for hi, (hdr, ops) in enumerate(hs + hists):
                 if hi % 4:
                     continue
